@@ -322,6 +322,26 @@ size_t make_segmentation(size_t n, size_t start, size_t end, size_t epsilon, Fin
     if (end >= start + 2 && in(end - 1) != in(end - 2))
         add_point(in(end - 1), end - 1);
 
+    if (end < n) {
+        // This is a chunk of a parallel construction. A run of duplicate keys that reaches the end of the chunk may
+        // continue in the next chunks, which skip it: apply here the adjustment for duplicate keys done in the loop
+        // above (or the one below, if the run reaches the end of the input) to the last element of the run.
+        auto run_end = end - 1;
+        while (run_end + 1 < n && in(run_end + 1) == in(end - 1))
+            ++run_end;
+        if (run_end > end - 1 || (end >= start + 2 && in(end - 1) == in(end - 2))) {
+            K next;
+            if constexpr (std::is_floating_point_v<K>)
+                next = std::nextafter(in(run_end), std::numeric_limits<K>::infinity());
+            else
+                next = in(run_end) + 1;
+            if (run_end == n - 1)
+                add_point(next, n);
+            else if (next < in(run_end + 1))
+                add_point(next, run_end);
+        }
+    }
+
     if (end == n) {
         // Ensure values greater than the last one are mapped to n
         if constexpr (std::is_floating_point_v<K>) {
